@@ -4,10 +4,13 @@
    handler, the select machine, notify_*, spawn_process, frame auto-pop and completion of
    Executor::step, replace_locals / release_orphan_locals; debug-build semantics: every
    debug_assert and every Vec index is a Panic outcome), theories/heap/HeapVmFix.v (spawn_process
-   after fix_F46). Both repairs are committed in /repo (fix_F9 = b6882e1, fix_F46 = 9ff9f6e): the
-   model of the code AS COMMITTED is `true` as first argument of a handler (the displaced
-   awaiting/receiving value is released) and `spawn_process_f46` (one bundled injection); `false`
-   and `spawn_process` model the code before the repairs and carry the `_refuted` witnesses.
+   after fix_F46). The repairs are committed in /repo (fix_F9 = b6882e1, fix_F46 = 9ff9f6e, fix_F45 =
+   09625d4): the model of the code AS COMMITTED is `true` as first argument of a handler (the
+   displaced awaiting/receiving value is released; complete_select forgets the select's process
+   sources and releases their stored results; notify_result stores nothing for a key that is no
+   longer awaited; the worker's Err arm fails only an awaiter that still awaits) and
+   `spawn_process_f46` (one bundled injection); `false` and `spawn_process` model the code before
+   the repairs and carry the `_refuted` witnesses.
 
    Vocabulary (theories/heap/HeapInv.v, HeapExec.v, HeapProofs.v):
      RC x      := forall i, rc_at (x_heap x) i = cnt i (all_refs x)
@@ -30,8 +33,16 @@
    * `refcount_exact` for the code BEFORE fix_F9 is false: refuted below at initialize_select,
      notify_result and call_receive_function; the un-negated theorems are for the code as
      committed (fx = true). Sites not touched by F9 are proved for both.
-   * A failing completion propagates the error over an awaiter's Ok result without releasing it
-     (finding F45h, refuted below); C06_refcount_exact_step carries the corresponding premise.
+   * C06_refcount_exact_step keeps the premise "a process that has an `awaiting` key for the failing
+     process holds no Ok result with references": the awaiters loop of Executor::step
+     (executor.rs, `awaiter_process.result = Some(Err(..))`) is unchanged by 09625d4 and still
+     overwrites unconditionally. What 09625d4 guarantees is that a key exists only between
+     initialize_select and complete_select of the select that registered it, i.e. while the awaiter
+     is blocked in that select and its `result` is None (resume_process takes it) — a reachability
+     fact about programs, not a local invariant of the model (arbitrary bytecode could finish a
+     process while its select state is set), so it stays a premise; the stale-key scenario of F45h
+     itself is gone (C06_F45h_repaired, C06_F45_complete_select_forgets) and its reproducer is a
+     must-pass probe of the check.
    * reclaim_complete needs NoOrphan, which spawn_process broke before fix_F46 (refuted below);
      NoOrphan-preservation is proved for the heap primitives only, not per handler (for the
      repaired spawn_process it is validated on every run: the oracle counts orphan slots).
@@ -165,8 +176,8 @@ Theorem C06_transfer_copies : forall h h2 v v' data h2' v'',
 Proof. exact transfer_copies_l. Qed.
 Print Assumptions C06_transfer_copies.
 
-(* ---- refuted, witnesses by computation: the code before fix_F9 / fix_F46 (kept as the record of
-   what the repairs change) and the still-open F45h ---- *)
+(* ---- refuted, witnesses by computation: the code before fix_F9 / fix_F46 / fix_F45 (kept as the
+   record of what the repairs change) ---- *)
 Theorem C06_F9_initialize_select_refuted :
   exists o h p pid now,
     Inv o h p /\ p_sel p = None /\
@@ -205,9 +216,46 @@ Theorem C06_F46_repaired_no_orphan :
 Proof. exact spawn_f46_no_orphan. Qed.
 Print Assumptions C06_F46_repaired_no_orphan.
 
-Theorem C06_F45h_fail_result_refuted : exists x, XInv x /\ ~ RC (fail_result x 0).
+Theorem C06_F45h_fail_result_refuted : exists x, XInv x /\ ~ RC (fail_result false x 0 1).
 Proof. exact fail_result_refuted. Qed.
 Print Assumptions C06_F45h_fail_result_refuted.
+
+(* the code as committed (09625d4): the same stale failure changes nothing *)
+Theorem C06_F45h_repaired :
+  fail_result true fr_exec 0 1 = fr_exec /\ XInv (fail_result true fr_exec 0 1).
+Proof. exact fail_result_repaired. Qed.
+Print Assumptions C06_F45h_repaired.
+
+(* 09625d4: completing a select on a process forgets it — the `awaiting` entry disappears and the
+   stored result is released; before the repair the entry and its count stayed *)
+Theorem C06_F45_complete_select_forgets :
+  match complete_select true (VInt 1) wit_heap
+          (mkProc [] [] [wit_frame] false [] None (Some (mkSel 0 0 [VProc 7 0] [] None None))
+                  [(7, Some (VBin 0))]) with
+  | MVal None h' p' => rc_at h' 0 = 0 /\ p_await p' = [] /\ pending h' = [0]
+  | _ => False
+  end /\
+  match complete_select false (VInt 1) wit_heap
+          (mkProc [] [] [wit_frame] false [] None (Some (mkSel 0 0 [VProc 7 0] [] None None))
+                  [(7, Some (VBin 0))]) with
+  | MVal None h' p' => rc_at h' 0 = 1 /\ p_await p' = [(7, Some (VBin 0))]
+  | _ => False
+  end.
+Proof. exact complete_select_forgets. Qed.
+Print Assumptions C06_F45_complete_select_forgets.
+
+(* a stale failure never touches a process that no longer awaits the failed one *)
+Theorem C06_F45_stale_failure_inert : forall x pid awaited p,
+  get_proc x pid = Some p -> has_key awaited (p_await p) = false -> fail_result true x pid awaited = x.
+Proof. exact fail_result_stale. Qed.
+Print Assumptions C06_F45_stale_failure_inert.
+
+(* the worker's Err arm on an awaiter that still awaits (its result carries no reference) *)
+Theorem C06_refcount_exact_fail_result : forall fx x pid awaited,
+  XInv x -> (forall p, get_proc x pid = Some p -> result_refs (p_result p) = []) ->
+  XInv (fail_result fx x pid awaited).
+Proof. exact fail_result_XInv. Qed.
+Print Assumptions C06_refcount_exact_fail_result.
 
 (* ---- non-vacuity: a heap with a shared, sliced binary in two processes satisfies the invariant ---- *)
 Theorem C06_nonvacuous_shared_sliced :
